@@ -205,7 +205,10 @@ func (w *world) selectAs(local base.LocalNode, perm []int, dead string, minWait,
 	return w.newNodeSel(local, func() []int { return perm }, dead, minWait, interval).do(w.Point, w.Prev)
 }
 
-func newWorld(r *vlib.Run, i int) *world {
+func newWorld(r *vlib.Run, i int) *world { return newWorldN(r, i, 0) }
+
+// newWorldN: as newWorld, with the suffrage size given when forceN > 0.
+func newWorldN(r *vlib.Run, i, forceN int) *world {
 	rng := r.Rand(1, i)
 	var n int
 	switch {
@@ -213,6 +216,9 @@ func newWorld(r *vlib.Run, i int) *world {
 		n = i + 1 // every size once
 	default:
 		n = 1 + rng.Intn(64)
+	}
+	if forceN > 0 {
+		n = forceN
 	}
 	w := &world{N: n, byAddr: map[string]base.LocalNode{}}
 	for k := 0; k < n; k++ {
@@ -274,7 +280,7 @@ func newWorld(r *vlib.Run, i int) *world {
 func TestC07(t *testing.T) {
 	r := vlib.Start(t, "C07", vlib.LevelExploration)
 	defer r.Finish()
-	r.SetRule("case = (suffrage of n real nodes with PRNG addresses, point, previous-block hash); per case the real BaseProposalSelector.Select (ProposerSelectFunc = BlockBasedProposerSelector.Select) runs once per permutation of the suffrage slice, each time as a different member being the local node; pass 2 repeats with the first proposer not answering; cached-listing phase: GetNodesFunc returns one and the same slice on every call, one proposer request fails once on one node, which is then compared over 9 further points with a node that saw no failure (and the listing must still be the suffrage); reuse phase: 4 nodes each keep ONE selector instance over an itinerary of 8-12 points (rounds of a height, next height, back) with the suffrage listed in a new order on every GetNodesFunc call, compared point by point; plus raw BlockBasedProposerSelector.Select calls; distinct = (n, point, hash, pass); non-trivial = n >= 2")
+	r.SetRule("case = (suffrage of n real nodes with PRNG addresses, point, previous-block hash); per case the real BaseProposalSelector.Select (ProposerSelectFunc = BlockBasedProposerSelector.Select) runs once per permutation of the suffrage slice, each time as a different member being the local node; pass 2 repeats with the first proposer not answering; cached-listing phase: GetNodesFunc returns one and the same slice on every call, one proposer request fails once on one node, which is then compared over 9 further points with a node that saw no failure (and the listing must still be the suffrage); reuse phase: 4 nodes each keep ONE selector instance over an itinerary of 8-12 points (rounds of a height, next height, back) with the suffrage listed in a new order on every GetNodesFunc call, compared point by point; concurrent phase: 2-16 goroutines released behind a barrier call Select on ONE selector instance (fresh per case, suffrage sizes 2..64) for a set of points (the same point from several goroutines, further rounds of the height, neighbouring heights, the same point after another previous block; points answered before come back), GetNodesFunc returning one shared slice that starts unsorted and is re-shuffled by the harness between batches only while no call is in progress, suffrage nodes that yield/sleep inside Address() in one of 4 schedule modes (none, sparse, dense, with sleeps), proposer requests sometimes slow and for one point per third batch failing once; every answer is compared with what an undisturbed node (own selector called sequentially, private listings) selects for the same (point, previous block), answers for one point must agree, the proposer must be a member and the shared slice must still list every member once; fingerprint = (n, goroutines, mode, batch, point, hash, callers of the point, listing state); plus raw BlockBasedProposerSelector.Select calls; distinct = (n, point, hash, pass); non-trivial = n >= 2")
 	r.Assume("suffrage addresses are pairwise distinct (a suffrage cannot hold one address twice)")
 	r.Assume("a Select that outlives its own MinProposerWait falls back to the local node by design; such runs are counted as timing fallbacks and not judged")
 
@@ -334,8 +340,19 @@ func TestC07(t *testing.T) {
 				}(k)
 			}
 			wg.Wait()
-			if i < nPass2 && w.N >= 2 && res.p1[0].Proposer != "" {
-				res.dead = res.p1[0].Proposer
+			// the node that stops answering in pass 2 is the proposer of pass 1,
+			// taken from a run that did not hit its own wait (a timing fallback
+			// returns the local node's proposal, which says nothing about who
+			// the proposer is)
+			firstProposer := ""
+			for k := range res.p1 {
+				if o := res.p1[k]; o.Err == "" && len(o.Selections) == 1 && o.Selections[0] == o.Proposer {
+					firstProposer = o.Proposer
+					break
+				}
+			}
+			if i < nPass2 && w.N >= 2 && firstProposer != "" {
+				res.dead = firstProposer
 				res.p2 = make([]obs, perms)
 				for k := 0; k < perms; k++ {
 					wg.Add(1)
@@ -833,6 +850,11 @@ func TestC07(t *testing.T) {
 	r.Count("cached_listing_timing_fallbacks_not_judged", sharedFallbacks)
 	if sharedJudged < nShared*5 {
 		r.Inconclusive(fmt.Sprintf("cached-listing phase judged only %d points", sharedJudged))
+	}
+
+	// ---- concurrent calls on one selector instance, one shared listing ------
+	if !concurrentPhase(r) {
+		return
 	}
 
 	// ---- raw selector: result is an element of its input -----------------
